@@ -80,6 +80,25 @@ def pcm_spec(signal, seed, frames):
     return {"signal": signal, "seed": seed, "frames": frames}
 
 
+def frame_volume_jobs(t, rnd, base_id):
+    """frames whose sample count (channels x block length) sits around 2^16 / bytes-per-sample and 2^16 itself, for every byte width: the same
+    content through all four front ends (one group each: same bytes; C09 checks the MD5 in STREAMINFO against the PCM)"""
+    jobs = []
+    shapes = [(24, 6, 4096), (24, 8, 4096), (24, 2, 10923), (24, 2, 10922), (24, 1, 21846), (24, 1, 21845), (20, 3, 7282), (17, 8, 2731),
+              (16, 1, 32768), (16, 2, 16384), (16, 1, 32769), (16, 8, 4608), (12, 2, 16385), (8, 1, 65535), (8, 8, 8192), (4, 2, 32768),
+              (32, 1, 16384), (32, 1, 16385), (32, 2, 8192), (32, 8, 4096)]
+    if t == "quick":
+        shapes = shapes[:6] + rnd.sample(shapes[6:], 5)
+    for i, (bps, ch, bs) in enumerate(shapes):
+        frames = bs * 2 + rnd.choice([0, 1, 77])
+        sig = rnd.choice(["walk", "noise", "sine"])
+        for fe in FES:
+            jobs.append({"fe": fe, "rate": 44100, "bps": bps, "channels": ch, "opts": {"block_size": bs, "max_lpc": -1, "max_po": 0, "seektable": "none", "padding": -1},
+                         "pcm": pcm_spec(sig, base_id + i, frames), "writes": [frames * upf_of(fe, ch, bps)], "pcm_id": base_id + i, "opts_id": 9,
+                         "tag": "frame-volume"})
+    return jobs
+
+
 # =============================================================================== C08
 def run_c08(pid):
     t0 = time.time()
@@ -174,6 +193,7 @@ def run_c08(pid):
         for j in jobs:
             if j["pcm_id"] == pidn:
                 j["pcm"] = pcm_spec(sig, pidn, frames)
+    jobs += frame_volume_jobs(t, rnd, 7000)
     # every 40th run is repeated through the path-taking constructor over an existing, longer file
     for i, j in enumerate(jobs):
         if i % 40 == 7:
@@ -294,6 +314,7 @@ def run_c09(pid):
         jobs.append({"fe": fe, "rate": rnd.choice([8000, 44100, 96000, 3]), "bps": bps, "channels": ch, "opts": opts,
                      "pcm": pcm_spec(rnd.choice(["walk", "sine", "noise", "stereo", "wasted"]), 777 + i, fr),
                      "writes": [fr * upf_of(fe, ch, bps)], "tag": "big", **({"total": fr * upf_of(fe, ch, bps)} if i % 2 else {})})
+    jobs += frame_volume_jobs(t, rnd, 7000)
     # long streams (more than 65535 samples) with a declared length and time-based seek points: the placeholder
     # table reserved up front must be the table finalize needs
     for i in range(10 if t == "quick" else 60):
@@ -477,6 +498,23 @@ def run_c15(pid):
         for n in range(0, 4):
             for seq in itertools.product(sizes, repeat=n):
                 jobs.append(job_of(p, fe, 5 * bs, None, writes=[s * upf for s in seq], tag="length"))
+    # the length contract does not depend on what else the file carries: the same histories under every seek table policy (none, every
+    # n frames incl. 0, every n seconds incl. 0, the default) and with / without padding
+    pol = ["none", {"frames": 0}, {"seconds": 0}, {"seconds": 1}, None, {"frames": 3}]
+    k_ = 0
+    for j in [j for j in jobs if j["tag"] in ("length", "total", "core-declared")]:
+        k_ += 1
+        if t == "quick" and k_ % 3:
+            continue
+        jj = json.loads(json.dumps(j))
+        st = pol[(k_ // 3) % len(pol)]
+        if st is None:
+            del jj["opts"]["seektable"]
+        else:
+            jj["opts"]["seektable"] = st
+        jj["opts"]["padding"] = [-1, 4096, 0][(k_ // 18) % 3]
+        jj["tag"] = j["tag"] + "-policy"
+        jobs.append(jj)
     parts = [jobs[i::8] for i in range(8)]
     runs = events = 0
     newok = newerr = 0
